@@ -286,3 +286,29 @@ Definition solve_seq_H := solve_seq_gen prune_paths_H.
 Definition solve_seq_H_orig := solve_seq_gen prune_paths_orig_H.
 
 End Heap.
+
+(** ** Correspondence helpers (instance F): a sequence of solves on one description, as observed
+    on the implementation - the k-th outcome and the caller's transition rows afterwards. *)
+From Coq Require Import PrimFloat.
+From CR Require Import Model.Corr.
+
+Fixpoint forall2b {A B} (f : A -> B -> bool) (a : list A) (b : list B) : bool :=
+  match a, b with
+  | [], [] => true
+  | x :: a', y :: b' => f x y && forall2b f a' b'
+  | _, _ => false
+  end.
+Definition seq_case :=
+  (game (T:=float) * list (bool * bool) * list xout * list (list (trans (T:=float))))%type.
+Definition cmp_seq_with (run : hgame (T:=float) -> store (T:=float) -> option (sgobj (T:=float))
+                               -> list (bool * bool)
+                               -> store (T:=float) * list (outcome mres)) (c : seq_case) : bool :=
+  let g := fst (fst (fst c)) in
+  let r := run (snd (load g)) (fst (load g)) None (snd (fst (fst c))) in
+  forall2b cmp_all (snd r) (snd (fst c)) && tl_eqb (firstn (length (g_trans g)) (fst r)) (snd c).
+(* the repaired pipeline, and the pinned tree's (used when validating the check against the
+   reverted repair) *)
+Definition run_seq_cases (cs : list seq_case) : list nat :=
+  idx_where (fun c => negb (cmp_seq_with (solve_seq_H fops big_fuel) c)) cs.
+Definition run_seq_cases_orig (cs : list seq_case) : list nat :=
+  idx_where (fun c => negb (cmp_seq_with (solve_seq_H_orig fops big_fuel) c)) cs.
